@@ -14,3 +14,9 @@ Definition mism_dist := Eval vm_compute in
   failing (fun c : list Z * Z * R (list Z) =>
     let '(coins, hours, obs) := c in R_matches (eqb_list Z.eqb) (distribute coins hours) obs) cases_dist.
 Print mism_dist.
+(* how many cases took the share-factor-1.0 fallback (second activation of create) *)
+Definition n_fallback := Eval vm_compute in
+  count_true (fun c : Z * params * list ux * R created * error =>
+    let '(burn, p, uxb, _, _) := c in
+    match create_step burn false p uxb with Val (inr (inr _)) => true | _ => false end) cases_create.
+Print n_fallback.
